@@ -24,7 +24,7 @@ from vlib import oracles
 from vlib.campaign import Campaign, chash
 from vlib.engine_k import crash_states, recover_from
 from vlib.par import map_raw, run_shards
-from vlib.spec import core_corpus, dag_spec, features, loop_spec
+from vlib.spec import core_corpus, dag_spec, features, loop_spec, syn_confluent_spec
 
 LEVEL = "fault_enumeration"
 CORPUS_SKIP = ("gate", "choice")  # gate: waits for a signal (C18); choice: winner is schedule dependent by definition
@@ -175,6 +175,12 @@ def all_specs() -> dict[str, dict[str, Any]]:
 
     out = dict(core_corpus())
     out["t_pair"] = {"name": "t_pair", "stages": [stage("a", [], [ok(emit("k_a"))]), stage("b", ["a"], [ok(emit("k_b", "echo", src="k_a"))])]}
+    # synthetic children beyond the corpus' single before / after child (DESIGN 7.2, F11-F12)
+    a, z = stage("a", [], [ok(emit("k_a"))]), stage("z", ["p"], [ok()])
+    out["syn_after3"] = {"name": "syn_after3", "stages": [a, stage("p", ["a"], [ok(emit("k_p"))], syn={"before": [], "after": ["ok"] * 3, "parallel": True, "pre": False, "onfail": []}), z]}
+    out["syn_onfail2"] = {"name": "syn_onfail2", "stages": [a, stage("p", ["a"], [{"b": "fail"}], syn={"before": ["ok"], "after": [], "parallel": False, "pre": False, "onfail": ["ok", "ok"]}), z]}
+    out["syn_pre_fail"] = {"name": "syn_pre_fail", "stages": [a, stage("p", ["a"], [{"b": "fail"}], syn={"before": ["ok"], "after": ["ok"], "parallel": False, "pre": True}), z]}
+    out["syn_pre_ok"] = {"name": "syn_pre_ok", "stages": [a, stage("p", ["a"], [ok(emit("k_p"))], syn={"before": ["ok", "ok"], "after": ["ok", "ok"], "parallel": True, "pre": True}), z]}
     return out
 
 
@@ -190,6 +196,7 @@ def shard_generated(prop: str, tier: str, seed: int, n: int, double_budget: int)
         dag_spec(max_stages=6, allow=("multi", "fail", "cof", "poll", "transient")),
         dag_spec(max_stages=5, allow=("multi", "poll"), joins=("AND", "DISC", "NOFM")),
         loop_spec(max_j=2),
+        syn_confluent_spec(),
     )
 
     @hseed(seed)
@@ -210,6 +217,7 @@ def _dispatch(fn, a):  # noqa: ANN001
 def run(c: Campaign, jobs: int) -> None:
     quick = c.tier == "quick"
     names = [k for k in core_corpus() if k not in CORPUS_SKIP]
+    names += ["syn_after3", "syn_onfail2", "syn_pre_fail", "syn_pre_ok"]
     args = [(shard_corpus, (c.prop, c.tier, c.seed, name, False)) for name in names]
     n_gen = 32 if quick else 480
     shards = max(1, jobs)
@@ -232,7 +240,8 @@ def run(c: Campaign, jobs: int) -> None:
         "SQLite backend only",
     ]
     for cls in ("feat:jump", "feat:poll", "feat:transient", "feat:terminal-failure", "feat:continue-on-failure", "feat:multi-task",
-                "feat:join-DISC", "feat:join-NOFM", "variant:after-effect", "double-crash"):
+                "feat:join-DISC", "feat:join-NOFM", "feat:after-child", "feat:before-child", "feat:onfail-child", "feat:predeclared-child",
+                "variant:after-effect", "double-crash"):
         if c.classes.get(cls, 0) == 0:
             c.harness_error(f"generator starvation: class {cls} never produced")
 
